@@ -34,12 +34,12 @@ OBLIGATIONS.append(dict(name="dir_inode_thresholds", harness="harness/C03_dirino
     reach=["basic", "extended"], functions=["sqfs_dir_writer_create_inode (lib/sqfs/src/dir_writer.c)"],
     bound="any listing size < 2^32-16, any entry count, hard link count, xattr index, parent, position (no directory index entries)"))
 def comp(kind, tiers):
-    nm = {1: "lz4", 2: "zstd"}[kind]
+    nm = {1: "lz4", 2: "zstd", 3: "gzip", 4: "xz"}[kind]
     return dict(name="compressor_contract_%s" % nm, harness="harness/C03_comp.c", sources=[], included_sources=["lib/sqfs/src/comp/%s.c" % nm],
-        defines=dict(KIND=kind, CAP=8), unwind=10, tiers=tiers, timeout=200, reach=["compressed", "not_smaller", "uncompress"] + (["error"] if kind == 2 else []),
+        defines=dict(KIND=kind, CAP=8), unwind=(16 if kind >= 3 else 10), tiers=tiers, timeout=200, reach=["compressed", "not_smaller", "uncompress"] + (["error"] if kind >= 2 else []),
         functions=["%s_comp_block, %s_uncomp_block (lib/sqfs/src/comp/%s.c)" % (nm, nm, nm)],
         bound="input size 1..8, output capacity 0..8, the codec library returns ANY value its documentation allows (bytes written <= capacity, 0, or an error)")
-OBLIGATIONS += [comp(1, ["quick", "thorough"]), comp(2, ["quick", "thorough"])]
+OBLIGATIONS += [comp(1, ["quick", "thorough"]), comp(2, ["quick", "thorough"]), comp(3, ["quick", "thorough"]), comp(4, ["quick", "thorough"])]
 
 def metaw(m, a, napp, tiers):
     return dict(name="meta_writer_blocks_m%d_a%d_n%d" % (m, a, napp), harness="harness/C03_metaw.c", sources=[], included_sources=["lib/sqfs/src/meta_writer.c"],
